@@ -284,8 +284,16 @@ def check(prop, tier):
         runs = [(seed, n, "")]
         if thorough:
             runs += [(seed + 101 * i, n, f"_s{i}") for i in range(1, 4)]
-        for (sd, nn, tag) in runs:
-            rep, tr = run_corr(prop, sd, nn, cfg["corr"]["families"], erase=cfg["corr"].get("erase", False), tag=tag)
+        er = cfg["corr"].get("erase", False)
+        if er == "both":   # the same seeded scripts directly and through the type-erased wrappers, both against the model
+            runs = [(sd, nn, tag, False) for (sd, nn, tag) in runs] + [(sd, nn, tag + "_erased", True) for (sd, nn, tag) in runs]
+        else:
+            runs = [(sd, nn, tag, bool(er)) for (sd, nn, tag) in runs]
+        for (sd, nn, tag, erased) in runs:
+            rep, tr = run_corr(prop, sd, nn, cfg["corr"]["families"], erase=erased, tag=tag)
+            corr_total.setdefault("erased_scripts", 0)
+            if erased:
+                corr_total["erased_scripts"] += rep["scripts"]
             for k in ("scripts", "macro_steps", "distinct_nontrivial"):
                 corr_total[k] += rep[k]
             for k in ("ops", "events"):
